@@ -319,7 +319,8 @@ fn main() {
                         let want: Vec<f64> = g[1].as_array().unwrap().iter().flat_map(|p| { let p = p.as_str().unwrap();
                             if nested { vec![flat[&format!("{p}.re")], flat[&format!("{p}.eps")]] } else { vec![flat[p]] } }).collect();
                         let got = py_floats(py, &locals, &format!("r.{gname}"))?;
-                        let ok = got.len() == want.len() && got.iter().zip(&want).all(|(a, b)| a.to_bits() == b.to_bits());
+                        // (the abstract value of the harness has no signed zero; the sign of a zero is compared through repr above)
+                        let ok = got.len() == want.len() && got.iter().zip(&want).all(|(a, b)| a.to_bits() == b.to_bits() || (*a == 0.0 && *b == 0.0));
                         rep.check(format!("{pyname}|getter {gname}"), ok, || json!({"expr": expr, "python": got, "rust": want}));
                     }
                     if rep.samples.len() < 3 && expr == "l - x" { rep.samples.push(json!({"class": pyname, "expr": expr, "repr": rr})); }
